@@ -392,9 +392,11 @@ theorem stray_needs_finite : Reachable init ∧ WeakFair strayExec ∧ LockFair 
     refine h (9 + (4 * n + 1)) 0 (by omega) ?_ (stray_at n 1 (by omega)).2
     rw [(stray_at n 1 (by omega)).1]; decide
   · rintro ⟨n, h⟩
-    refine h (9 + (4 * n + 0)) 1 0 (by omega) (stray_at n 0 (by omega)).2 ?_ ?_
-    · rw [(stray_at n 0 (by omega)).1]; decide
-    · rw [(stray_at n 0 (by omega)).1]; decide
+    obtain ⟨r, hp, _⟩ := h (9 + (4 * n + 0)) 1 0 (by omega) (stray_at n 0 (by omega)).2 0
+      (by rw [(stray_at n 0 (by omega)).1]; decide)
+    rw [(stray_at n 0 (by omega)).1] at hp
+    have : (stateFrom straySf (strayLoop.take 0)).post 1 = none := by decide
+    rw [this] at hp; cases hp
   · intro j hj
     have e : strayExec.ρ j = _ := (lassoExec_tail stray_run stray_loop (by decide) (show strayPre.length ≤ j from hj)).1
     rw [e]
